@@ -220,8 +220,9 @@ Lemma validate_in_out_ni cfg i o c a : validate_in_out cfg i o c = Some a -> aer
 Proof.
   unfold validate_in_out. pose proof (validate_optionals_ni cfg o c) as HO.
   pose proof (validate_params_ni cfg (merge_params i o) c) as HP.
-  destruct (validate_optionals cfg o c) as [x|]; destruct (validate_params cfg (merge_params i o) c) as [y|];
-    repeat break_goal; intros H; inversion H; subst; cbn; try discriminate; auto.
+  destruct (validate_optionals cfg o c) as [[e|e p]|]; destruct (validate_params cfg (merge_params i o) c) as [y|];
+    repeat break_goal; intros H; inversion H; subst; cbn; try discriminate; auto;
+    try (specialize (HO _ eq_refl); cbn in HO; exact HO).
 Qed.
 
 (* ========================================================================================== *)
